@@ -446,6 +446,9 @@ func checkC04(c *Ctx, r *Report) {
 	r.rule("C04.R13", "the tag number written for a member comes from its `tagNum:` parameter only (shared with C16.R7)", 1)
 	r.rule("C04.R14", "the string-type keywords of the `ber:` tags select the universal tag numbers X.680 gives those types (utf8 12, ia5 22, graphic 25 ...)", 3)
 	r.rule("C04.R15", "the digits of a tag number / length are written into the octets that were just appended for them: the index of every such write starts at the number of octets the header already has", 0)
+	r.rule("C04.R16", "the octets of an element header are the slice appendTagAndLen returns (or a buffer that holds the longest header, 20 octets)", 2)
+	r.rule("C04.R17", "descending into a pointer or a wrapper type (struct{Value}/struct{List}) makeField passes on the member's own tag number and EXPLICIT flag", 4)
+	r.rule("C04.R18", "a BIT STRING announces 1 + len(Bytes) or 1 + ceil(BitLength/8) octets", 1)
 	r.rule("C04.R6", "errors are returned: recursive calls, unsupported constructs, top level", 4)
 	r.rule("C04.R7", "the content encoder is stored on every path that uses it (no nil-interface call)", 2)
 	r.rule("C04.R9", "tag-number, length and INTEGER octet counts are exactly the minimal number of digits for every value (exact interval partition), digits written most significant first", 6)
@@ -557,6 +560,9 @@ func checkC04(c *Ctx, r *Report) {
 	c04LenIsOctetCount(c, r, "C04.R12")
 	c04StringTypeTags(c, r, "C04.R14")
 	c04HeaderCursor(c, r, "C04.R15")
+	c04HeaderResult(c, r, "C04.R16")
+	c04TagParamsPassThrough(c, r, "C04.R17")
+	c04BitStringOctets(c, r, "C04.R18")
 	c16TagNumberWriters(c, r, "C04.R13")
 	c04ErrorPropagation(c, r, mk, "C04.R6")
 	top := c.fn("cdr/asn", "BerMarshalWithParams")
@@ -764,6 +770,8 @@ func checkC05(c *Ctx, r *Report) {
 	r.rule("C05.R12", "the decoder refuses no tag number the encoder writes: an error exit decided by the value of the tag number leaves 31..2^21 (everything the high-tag-number form is used for) accepted", 1)
 	r.rule("C05.R13", "both halves see the declared tag numbers in full width (shared with C04.R11)", 1)
 	r.rule("C05.R14", "the header the decoder reads back has its length octets where the encoder meant them (shared with C04.R15)", 0)
+	r.rule("C05.R15", "a BIT STRING announces 1 + len(Bytes) or 1 + ceil(BitLength/8) octets: the decoder takes every contents octet for 8 bits (shared with C04.R18)", 1)
+	r.rule("C05.R16", "the encoder passes a member's own tag number and EXPLICIT flag on when it descends into a pointer or wrapper type: the decoder expects the element under the declared tagging (shared with C04.R17)", 4)
 	r.rule("C05.R3", "unsupported constructs return an error in both halves", 2)
 	r.rule("C05.R4", "decoder stores values of the right type (reflect Set assignability)", 3)
 	r.rule("C05.R10", "the decoder takes class, form and tag number from the bits the encoder (and X.690 8.1.2) puts them in", 5)
@@ -809,6 +817,8 @@ func checkC05(c *Ctx, r *Report) {
 	c05TagAcceptRange(c, r, "C05.R12")
 	checkParseWidths(c, r, "C05.R13", c.fn("cdr/asn", "parseFieldParameters"))
 	c04HeaderCursor(c, r, "C05.R14")
+	c04BitStringOctets(c, r, "C05.R15")
+	c04TagParamsPassThrough(c, r, "C05.R16")
 	c04DigitCounts(c, r, "C05.R9")
 	berHeaderDecoder(c, r, "C05.R10")
 	codecPurity(c, r, []*ssa.Function{c.fn("cdr/asn", "UnmarshalWithParams"), c.fn("cdr/asn", "Unmarshal")}, modPath+"/cdr/asn", "C05.R6", "decode")
